@@ -36,6 +36,11 @@ func init() {
 		Desc: "Decl e(A) bound [/fruit]. e(/fruit/pear). Decl p(A) bound [fn:Singleton(/fruit/apple)]. p(X) :- e(X). is accepted in error mode although p(/fruit/pear) is outside p's declared bound",
 		Run: func(r *simrt.Run) Outcome {
 			return c11ProbeProgram("Decl e0(A0) bound [/fruit].\ne0(/fruit/pear).\nDecl p0(A0) bound [fn:Singleton(/fruit/apple)].\np0(X) :- e0(X).\n")
+		}}, {
+		Key:  "empty-list-in-two-list-types",
+		Desc: "the empty list is a member of fn:List(/string) and of fn:List(/number): a join of the two must keep that alternative, p0([]) is outside p0's declared bounds",
+		Run: func(r *simrt.Run) Outcome {
+			return c11ProbeProgram("Decl e0(A0) bound [fn:List(/string)] bound [/number].\ne0([]).\nDecl e1(A0, A1) bound [fn:Union(fn:List(/number), /number), /number].\ne1([], 1).\nDecl p0(A0) bound [/number] bound [/string].\np0(X) :- e0(X), e1(X, W1).\n")
 		}}}})
 }
 
